@@ -1,0 +1,37 @@
+//! Verification hook points. Only compiled with `--cfg jammdb_verif`.
+//!
+//! A point is a named place in the code with a few scalar arguments. With no
+//! handler installed a point costs one relaxed atomic load. A test harness can
+//! install a process-global handler that records the point and/or parks the
+//! calling thread (to force a particular schedule).
+
+use std::sync::{
+    atomic::{AtomicBool, Ordering},
+    Arc, RwLock,
+};
+
+pub type Handler = dyn Fn(&'static str, &[(&'static str, u64)]) + Send + Sync;
+
+static ENABLED: AtomicBool = AtomicBool::new(false);
+static HANDLER: RwLock<Option<Arc<Handler>>> = RwLock::new(None);
+
+/// Installs (or removes) the process-global handler.
+pub fn set_handler(h: Option<Arc<Handler>>) {
+    let mut g = HANDLER.write().unwrap_or_else(|e| e.into_inner());
+    ENABLED.store(h.is_some(), Ordering::SeqCst);
+    *g = h;
+}
+
+#[inline]
+pub fn point(name: &'static str, args: &[(&'static str, u64)]) {
+    if !ENABLED.load(Ordering::Relaxed) {
+        return;
+    }
+    let h = {
+        let g = HANDLER.read().unwrap_or_else(|e| e.into_inner());
+        g.clone()
+    };
+    if let Some(h) = h {
+        h(name, args);
+    }
+}
